@@ -19,7 +19,8 @@ def key(op, impl, M, S):
     how = C.op_comment(op).split(" ")[0]
     if impl.startswith("panic"): return "%s:panic" % kind
     why = (S or "").split(":")[1] if (S or "").startswith("spec-rejects:") else "model-differs"
-    return "%s:%s:%s:%s" % (kind, how, why, ":".join(impl.split(":")[:2]))
+    obs = "ok" if impl.startswith("ok:") else ":".join(impl.split(":")[:2])
+    return "%s:%s:%s:%s" % (kind, how, why, obs)
 
 def describe(op):
     return "harness/cmd/c01: str = String()/StringPtr() + checks; num <kind> <ptr-variant> checks (cmp op bound | mul d); enum/literal value sets; input after '|'"
